@@ -50,6 +50,13 @@ def sym_generate_tokens(text, maxtok=None):
 
 
 def real_generate_tokens(src: str, wall=3.0):
+    k, p = _real_generate_tokens(src, wall)
+    if k == "HANG":    # a loaded machine is not a hang: confirm with a much larger limit
+        k, p = _real_generate_tokens(src, wall * 10)
+    return k, p
+
+
+def _real_generate_tokens(src: str, wall=3.0):
     R = repo().real
     toks = []
     tl = time_limit(wall)
@@ -76,6 +83,13 @@ def sym_parse(text, mode="exec", **kw):
 
 
 def real_parse(src: str, mode="exec", wall=5.0, **kw):
+    k, p = _real_parse(src, mode, wall, **kw)
+    if k == "HANG":    # a loaded machine is not a hang: confirm with a much larger limit
+        k, p = _real_parse(src, mode, wall * 10, **kw)
+    return k, p
+
+
+def _real_parse(src: str, mode="exec", wall=5.0, **kw):
     R = repo().real
     tl = time_limit(wall)
     with tl:
